@@ -75,12 +75,12 @@ func violate(r *vcommon.Report, i int, t *sstmodel.Table, class, detail string, 
 		map[string]any{"format": t.Opts.Format, "iter_kind": kind, "keyspace": t.Opts.KeySpace, "filter": t.Opts.Filter})
 }
 
-func runCase(r *vcommon.Report, i int, rng *rand.Rand) {
+func runCase(r *vcommon.Report, i int, rng *rand.Rand, sh sstmodel.Shape) {
 	ks := sstmodel.TestKeys
 	if rng.IntN(10) < 3 {
 		ks = sstmodel.Crdb
 	}
-	t := sstmodel.GenTable(rng, ks, sstmodel.Shape{})
+	t := sstmodel.GenTable(rng, ks, sh)
 	r.Eval(1)
 	if err := sstmodel.Build(t); err != nil {
 		violate(r, i, t, "write-error", "writer rejected a sorted, fragmented input: "+err.Error(), nil)
@@ -251,20 +251,21 @@ func runCase(r *vcommon.Report, i int, rng *rand.Rand) {
 	}
 }
 
-func TestVerifC25(t *testing.T) {
-	r := vcommon.NewReport("C25", "main")
+const rule = "each case = one random table (0-3000 points of all point kinds, 1-40 versions per prefix, empty to multi-block values, " +
+	"long shared prefixes, fragmented range dels / range keys) written with random WriterOptions (every TableFormat from Pebblev1 to the newest, " +
+	"BlockSize 1B-32KiB, single/two-level index, restart interval 1-64, every compression profile, bloom/adaptive-bloom/binary-fuse/no filter, value blocks on/off, " +
+	"testkeys+DefaultKeySchema or cockroachkvs, strict-obsolete, checksum types, size-class aware flushing) and read back through 2-4 point iterators " +
+	"(20-200 contract-respecting random ops each) plus range-del and range-key iterators; distinct = option tuple x entry-count bucket, empty tables are trivial"
+
+func runPart(t *testing.T, part string, n int, sh sstmodel.Shape) {
+	r := vcommon.NewReport("C25", part)
 	defer r.Finish(t)
-	r.Rule("each case = one random table (0-3000 points of all point kinds, 1-40 versions per prefix, empty to multi-block values, " +
-		"long shared prefixes, fragmented range dels / range keys) written with random WriterOptions (every TableFormat from Pebblev1 to the newest, " +
-		"BlockSize 1B-32KiB, single/two-level index, restart interval 1-64, every compression profile, bloom/adaptive-bloom/binary-fuse/no filter, value blocks on/off, " +
-		"testkeys+DefaultKeySchema or cockroachkvs, strict-obsolete, checksum types, size-class aware flushing) and read back through 2-4 point iterators " +
-		"(20-200 contract-respecting random ops each) plus range-del and range-key iterators; distinct = option tuple x entry-count bucket, empty tables are trivial")
+	r.Rule(rule)
 	r.Assume("iterator calls stay inside the documented InternalIterator contract (internal/base/iterator.go): no First with a lower bound, no Last with an upper bound, " +
 		"seek keys inside [lower, upper], no Next after an exhausted forward op, no Prev/NextPrefix in prefix mode, TrySeekUsingNext only in same-type seek sequences with non-decreasing keys")
 	r.Assume("NextPrefix is only issued when the upper bound is nil or a bare prefix (pebble.Iterator enforces the same)")
-	n := vcommon.Scale(400, 20000)
 	r.Cases(n, func(i int, rng *rand.Rand) {
-		if msg, stack := sstmodel.Guard(func() { runCase(r, i, rng) }); msg != "" {
+		if msg, stack := sstmodel.Guard(func() { runCase(r, i, rng, sh) }); msg != "" {
 			r.Violate("panic", "panic on contract-respecting input: "+msg,
 				map[string]any{"case": i, "panic": msg, "stack": stack, "replay_hint": fmt.Sprintf("VERIF_SEED=%d VERIF_ONLY_CASE=%d", vcommon.Seed(), i)},
 				map[string]any{"message": msg})
@@ -273,4 +274,12 @@ func TestVerifC25(t *testing.T) {
 			r.Finish(t)
 		}
 	})
+}
+
+func TestVerifC25(t *testing.T) { runPart(t, "main", vcommon.Scale(400, 20000), sstmodel.Shape{}) }
+
+// TestVerifC25Race repeats the monitor on the columnar formats under the race
+// build (checkptr on colblk's unsafe decoding); thorough tier only.
+func TestVerifC25Race(t *testing.T) {
+	runPart(t, "race", vcommon.Scale(40, 1500), sstmodel.Shape{MinFormat: sstable.TableFormatPebblev5, MaxEntries: 1200})
 }
